@@ -23,7 +23,7 @@ from ..schemas import ABS, K, MK, MSEC, SEC, SCHEMA, TYPE
 def docs():
     d1 = SCHEMA(types=[ABS("abs1"), TYPE("t1", [K("k1")], implements="abs1"), TYPE("t3", [K("k3")], extends="t1"),
                        TYPE("u1", [K("k1")])],
-                children=[MSEC("abs1", "*", "impls")])
+                children=[MSEC("abs1", "*", "impls"), K("k0")])
     d2 = SCHEMA(types=[ABS("abs1"), ABS("abs2"), TYPE("t2", [], implements="abs2")],
                 children=[SEC("abs1", "*", "one"), MSEC("abs2", "+", "twos"), SEC("abs1", "fixed")])
     d3 = SCHEMA(types=[ABS("abs1"), TYPE("box", [MSEC("abs1", "*", "items")])],
@@ -38,7 +38,7 @@ def docs():
 
 LINES = {
     0: ["%import zcvpkg_a", "%import zcvpkg_b", "%import ZCVPKG_A", "%import zcvpkg_nocomp", "<pa1 n1/>", "<pa2 n2/>",
-        "<pb1/>", "<t1/>", "<t3 x/>", "<abs1 x/>", "<u1/>"],
+        "<pb1/>", "<t1/>", "<t3 x/>", "<abs1 x/>", "<u1/>", "%define pk zcvpkg_a", "%import $pk"],
     1: ["%import zcvpkg_a", "%import zcvpkg_c", "%import zcvmod_plain", "%import zcvpkg_missing", "<pa1 n1/>",
         "<pc1 n2/>", "<pa1 fixed/>", "<t2 n3/>", "<pa2/>", "%import zcvpkg_a."],
     2: ["%import zcvpkg_a", "%import zcvpkg_b", "<box>", "</box>", "<pa1 n1/>", "<pb1/>", "<pa1/>", "%import zcvpkg_c"],
@@ -85,8 +85,15 @@ def record_session(ws, sc, sid, idxs, mutate_after=(), one_loader=False):
     s = {"sid": sid + 1, "digest0": scenario.session_digest(sch), "steps": [], "_items": idxs,
          "_one_loader": one_loader}
     shared = ZConfig.loader.ConfigLoader(sch) if one_loader else None
+    if one_loader and all(sc.items[i]["opts"] == sc.items[idxs[0]]["opts"] and sc.items[i]["opts"] for i in idxs):
+        # every load of the session carries the same overrides: one ExtendedConfigLoader holding them
+        from ZConfig import cmdline
+        shared = cmdline.ExtendedConfigLoader(sch)
+        for o in sc.items[idxs[0]]["opts"]:
+            shared.addOption(o)
+    ext = shared is not None and type(shared).__name__ == "ExtendedConfigLoader"
     for k, i in enumerate(idxs):
-        fac = (lambda schema, ovs: shared) if (shared is not None and not sc.items[i]["opts"]) else None
+        fac = (lambda schema, ovs: shared) if (shared is not None and (ext or not sc.items[i]["opts"])) else None
         got, res = scenario.run_real(ws, sch, rec, sc.items[i], loader_factory=fac)
         tree = project.spec_tree(res[0], rec, top=True) if res else None
         s["steps"].append({"op": "load", "scn": i + 1, "out": scenario.logged_outcome(tree, got),
@@ -124,7 +131,7 @@ def run(chk):
                     "named '*', '+' and fixed; nested) x every text of <= %d lines over: %%import of 3 generated component "
                     "packages (one in another letter case), of a package without component, a plain module, a missing "
                     "package and a name with an empty dotted part; headers of every schema / package type and of the "
-                    "abstract type; then random sessions of <= 4 loads against one schema object (half of them through one reused ConfigLoader object); non-trivial = the text "
+                    "abstract type; then random sessions of <= 4 loads against one schema object (half of them through one reused ConfigLoader object, some through one ExtendedConfigLoader holding an override); non-trivial = the text "
                     "has a %%import or a header" % maxlen)
         for sid in range(len(dd)):
             for n in range(0, maxlen + 1):
@@ -135,6 +142,13 @@ def run(chk):
                                      != combo.count("</pd1>") + combo.count("</wbase>")):
                         continue
                     sc.add(sid, {"d/main.conf": list(combo)}, meta={"nontrivial": n > 0})
+        # the texts of schema 0 with %import once more, with an override of the top-level key (for the sessions
+        # that go through one ExtendedConfigLoader)
+        with_opts = []
+        for i, it in enumerate(list(sc.items)):
+            ls = it["files"]["d/main.conf"]
+            if it["sid"] == 0 and 1 <= len(ls) <= 2 and any(l.startswith(("%import", "<p")) for l in ls):
+                with_opts.append(sc.add(0, {"d/main.conf": list(ls)}, opts=["k0=ov"], meta={"nontrivial": True}))
         outs = sc.run_spec(chk)
         scenario.replay_all(chk, sc, outs, compare)
         chk.exhaustive = True
@@ -150,6 +164,10 @@ def run(chk):
                 sid = rng.randrange(len(dd))
                 idxs = [rng.choice(by_sid[sid]) for _ in range(rng.randint(2, 4))]
                 sessions.append(record_session(ws, sc, sid, idxs, one_loader=rng.random() < 0.5))
+            # sessions through one ExtendedConfigLoader that carries an override of a top-level key
+            for _ in range(150 if quick else 1200):
+                idxs = [rng.choice(with_opts) for _ in range(rng.randint(2, 4))]
+                sessions.append(record_session(ws, sc, 0, idxs, one_loader=True))
         finally:
             ws.close()
         scenario.validate_sessions(chk, sc, sessions, describe(sc))
